@@ -254,6 +254,10 @@ def h_open(ctx, N, mode, prefix):
     for i in range(N):
         was_tid = sc.rig.h.transaction_id
         o = sc.step(alphabet)
+        if o.exc is not None and o.faults and type(o.exc).__name__ not in hdst.DEST_DOCUMENTED:
+            # an internal error in a call in which a fault was declared belongs to the fault handling
+            ctx.prop("no_internal_error_on_fault", False,
+                     lambda: {"sig": f"open: {o.faults[0][2].name}/{o.faults[0][0]}: internal error in the call that declared the fault"})
         hdst.end_if_other_property(ctx, o)
         seen = {}
         for f in o.faults:
